@@ -198,18 +198,18 @@ Proof.
   - cbn [trs]. exact K.
 Qed.
 
-(* refuted: with a dissimilar transfer the PeerInfo transfer counter does NOT return to zero *)
+(* the former leak witness (scenario 'dis'): since 3d23180 the erased transfer is deleted with the block *)
 Definition leak_ops : list op :=
-  [ Connect 0 true false; HsBytes 0 68; PeerMsg 0 MBitfield 6 6; PeerMsg 0 MUnchoke 5 5; LibMsg 0 (LRequest 7);
-    PeerMsg 0 (MPiece 7 None) 113 2061;
-    Connect 1 true false; HsBytes 1 68; PeerMsg 1 MBitfield 6 6; PeerMsg 1 MUnchoke 5 5; LibMsg 1 (LRequest 7);
-    PeerMsg 1 (MPiece 7 (Some 10%N)) 85 2061;
+  [ Connect 0 true false; HsBytes 0 68; PeerMsg 0 MBitfield 6 6; PeerMsg 0 MUnchoke 5 5; LibMsg 0 (LRequest 448);
+    PeerMsg 0 (MPiece 448 None) 113 2061;
+    Connect 1 true false; HsBytes 1 68; PeerMsg 1 MBitfield 6 6; PeerMsg 1 MUnchoke 5 5; LibMsg 1 (LRequest 448);
+    PeerMsg 1 (MPiece 448 (Some 10%N)) 85 2061;
     Abort 1; Abort 0; Stop ].
 
-Lemma tc_leak_witness :
+Lemma former_leak_example :
   let s := run false leak_ops in
   rej s = false /\ g s = vz /\
-  (exists r, get_row 1 (rows s) = Some r /\ row_zero r = true /\ tc r = 1).
+  (exists r, get_row 1 (rows s) = Some r /\ row_zero r = true /\ tc r = 0).
 Proof. vm_compute. repeat split. eexists. repeat split. Qed.
 
 Lemma no_dissimilar_example :
